@@ -64,7 +64,8 @@ Folded(s) == LET k == KeyCount(s, p, c) IN IF k > MaxPerm THEN MaxPerm ELSE k
 
 \* what site s contributes to its object, given the order it was walked in
 Kind(s) == IF Layer = "A" /\ ImplKind(s, c) = "map" THEN "sorted" ELSE ImplKind(s, c)
-Render(s, w) == IF Kind(s) = "map" THEN w ELSE Ident(Len(w))
+Render(s, w) == IF w = Ident(Len(w)) THEN w                 \* (the canonical walk renders to itself under every kind)
+                ELSE IF Kind(s) = "map" THEN w ELSE Ident(Len(w))
 
 \* content of object o: the contributions of its sites, and the directory name where the object carries it
 Content(o, wk, d) ==
